@@ -30,7 +30,10 @@ RULE = (
     "Histories of write / write_not_completed / write_log / drop_not_completed(id) / drop_not_completed() / "
     "close+reopen(r|a|w) over DataStoreDirectory(suffix=fasta) and DataStoreSqlite, identifiers drawn from the entangled "
     "set {a, ba, ab, a.b, x1, x11, 1x, seq, aseq, fasta, afasta, json, not_completed} rendered with and without the "
-    "format suffix, one unique payload per write. (1) 'pairs': every ordered pair (x, y) of the set x 10 short templates "
+    "format suffix, plus store-specific hostile names (directory: catalog, blog, geojson, xlog, ajson — last letters are a "
+    "special suffix without the dot; sqlite: 0042, 7.10, 1e3, ' 12', 007, 7, a 20-digit string — text that parses as a "
+    "number), one unique payload per write; `id in store` is asked for every identifier of the history, bare and as "
+    "stored, on the live and on the fresh store. (1) 'pairs': every ordered pair (x, y) of the set x 10 short templates "
     "(write retires exactly its own not-completed record, drop(id), rewrite of a completed id, not-completed over "
     "completed / over not-completed, read-only rejection of every mutation, drop-all, logs, read-only open after drop-all) x {same session, reopen a, "
     "reopen w} (thorough: all three sessions for every (x, y, template); quick: one session per (x, y, template), rotated so "
@@ -80,6 +83,18 @@ FAMILIES = [
     ["not_completed", "a", "ba"],
 ]
 PLAIN_FAMILIES = [["a", "ba", "ab"], ["x1", "x11", "1x"], ["seq", "aseq", "a"]]
+# store-specific hostile identifiers, paired among themselves and with two of the base set (see gen_cases):
+#   directory store — names whose last letters are a special suffix without the dot ("catalog" vs "cata.log");
+#   sqlite store — text that parses as a number in non-canonical form (column affinity must stay TEXT)
+EXTRA_IDS = {
+    "dir": ["catalog", "blog", "geojson", "xlog", "ajson"],
+    "sqlite": ["0042", "7.10", "1e3", " 12", "007", "7", "12345678901234567890"],
+}
+EXTRA_PARTNERS = {"dir": ["a", "json"], "sqlite": ["a", "x1"]}
+EXTRA_FAMILIES = {
+    "dir": [["catalog", "blog", "geojson", "a"], ["xlog", "ajson", "json", "blog"]],
+    "sqlite": [["0042", "007", "7", "7.10"], ["1e3", " 12", "12345678901234567890", "7"]],
+}
 SUFFIX = "fasta"
 
 
@@ -146,8 +161,8 @@ def _sql_cache_problem(self):
         if not cached_c and not cached_n:
             return None
         rows = db.execute("SELECT record_id, is_completed FROM results").fetchall()
-        scan_c = [r[0] for r in rows if r[1]]
-        scan_n = [r[0] for r in rows if not r[1]]
+        scan_c = [str(r[0]) for r in rows if r[1]]  # (str: what the member list is built from, whatever the column type)
+        scan_n = [str(r[0]) for r in rows if not r[1]]
         return _multiset_problem("completed", cached_c, scan_c) or _multiset_problem("not_completed", cached_n, scan_n)
     except sqlite3.ProgrammingError:
         return None  # connection already closed
@@ -255,6 +270,8 @@ class Adapter:
         self.store = store
         self.root = pathlib.Path(root)
         self.path = self.root / ("store" if store == "dir" else "store.sqlitedb")
+        self.probes = []
+        self.excused = set()
 
     def open(self, mode):
         if self.store == "dir":
@@ -274,6 +291,15 @@ class Adapter:
 
     def luid(self, name):
         return f"logs/{name}"
+
+    def expect_contains(self, model, q):
+        """`q in store`: a record (either kind) is stored under that relative identifier; the directory store adds its
+        suffix to a name that has neither the store suffix nor a special (.json / .log) one"""
+        if self.store == "dir":
+            special = q.endswith(".json") or q.endswith(".log")
+            if not q.endswith(f".{SUFFIX}") and not special:
+                q = f"{q}.{SUFFIX}"
+        return q in model.C or q in model.N
 
     def logical(self, uid):
         """logical id of an observed uid (used for relation classes only)"""
@@ -347,7 +373,7 @@ class Model:
         return m
 
 
-def observe(ds):
+def observe(ds, probes=()):
     """what a client can see of a store; raises whatever the store raises"""
     comp = sorted([str(m.unique_id), m.read(), ds.md5(str(m.unique_id))] for m in ds.completed)
     nc = sorted([str(m.unique_id), m.read(), ds.md5(str(m.unique_id))] for m in ds.not_completed)
@@ -360,7 +386,9 @@ def observe(ds):
         "missing": int(vd["Num md5sum missing"]),
         "has_log": bool(vd["Has log"]),
     }
-    return {"completed": comp, "not_completed": nc, "logs": logs, "validate": val}
+    asked = sorted(set(probes) | {r[0] for r in comp} | {r[0] for r in nc})
+    contains = [[q, bool(q in ds)] for q in asked]
+    return {"completed": comp, "not_completed": nc, "logs": logs, "validate": val, "contains": contains}
 
 
 def observe_held(ds, held):
@@ -495,6 +523,11 @@ def differences(exp, got, A, target, payload, prev, no_change_expected=False):
                 out.append((2, "alien-log"))
     if not out and got["validate"] != exp.validate():
         out.append((7, "validate-disagrees"))
+    wrong = [q for q, ans in got.get("contains", []) if q not in A.excused and A.expect_contains(exp, q) != ans]
+    if not out and wrong:
+        out.append((7, "contains-disagrees"))
+        # `in` is a function of the state, not something a resync can adopt: report an identifier once per history
+        A.excused.update(wrong)
     seen = []
     for d in sorted(out):
         if d not in seen:
@@ -567,6 +600,7 @@ def _close(ds, unlock=False, force=False):
 
 def _run(res, A, ops, tag, state):
     store = A.store
+    A.probes = _probes(A, ops)
     model = Model()
     mode = None
     reopened = False
@@ -800,7 +834,7 @@ def _run(res, A, ops, tag, state):
         live = None
         live_exc = None
         try:
-            live = observe(state["live"])
+            live = observe(state["live"], A.probes)
         except CacheInvariantError as e:
             inv_err = inv_err or e
         except Exception as e:  # noqa: BLE001
@@ -883,6 +917,16 @@ def _run(res, A, ops, tag, state):
         prev_kind = kind
 
 
+def _probes(A, ops):
+    """relative identifiers to ask `in store` about: every identifier of the history, bare and as stored"""
+    out = set()
+    for op in ops:
+        if op["op"] in ("write", "write_not_completed", "drop"):
+            lid = strip_render(A.store, op["id"])
+            out.update({lid, A.cuid(lid), A.nuid(lid)})
+    return sorted(out)
+
+
 def _observe_fresh(A):
     # the observer passes the Mode member: DataStoreDirectory(mode="r") (a str) creates missing sub-directories, which
     # would repair the very state under observation
@@ -890,7 +934,7 @@ def _observe_fresh(A):
 
     ro = A.open(READONLY)
     try:
-        return observe(ro)
+        return observe(ro, A.probes)
     finally:
         if hasattr(ro, "close"):
             ro.close()
@@ -912,12 +956,12 @@ def render(rng, store, kind, lid):
 
 
 def random_history(rng, store, maxlen, profile):
-    fams = PLAIN_FAMILIES if profile == "plain" else FAMILIES
+    fams = PLAIN_FAMILIES if profile == "plain" else FAMILIES + EXTRA_FAMILIES[store]
     ids = list(rng.choice(fams))
     if rng.random() < 0.4:
         ids += rng.choice(fams)
     if rng.random() < 0.3:
-        ids.append(rng.choice(IDS if profile != "plain" else ["a", "ba", "x1", "seq"]))
+        ids.append(rng.choice(IDS + EXTRA_IDS[store] if profile != "plain" else ["a", "ba", "x1", "seq"]))
     ids = sorted(set(ids))
     if profile == "tight":
         ids = rng.sample(ids, min(len(ids), 2))
@@ -947,7 +991,7 @@ def random_history(rng, store, maxlen, profile):
             if store == "sqlite" and logged:
                 continue
             nlog += 1
-            base = "fasta" if ("fasta" in ids and rng.random() < 0.5) else "run"
+            base = "fasta" if ("fasta" in ids and rng.random() < 0.5) else "blog" if ("blog" in ids and rng.random() < 0.5) else "run"
             ops.append({"op": "write_log", "id": f"{base}-{nlog}.log"})
             logged = True
             continue
@@ -963,7 +1007,7 @@ TEMPLATES = ["retire", "drop", "rewrite", "nc-over-c", "nc-over-nc", "readonly",
 SESSIONS = ["same", "reopen-a", "reopen-w"]
 
 
-def pair_script(rng, store, x, y, template, session):
+def pair_script(rng, store, x, y, template, session, pool=None):
     """short directed history over the ordered identifier pair (x, y); the last block runs in `session`"""
 
     def W(i):
@@ -982,7 +1026,7 @@ def pair_script(rng, store, x, y, template, session):
         sw = [{"op": "reopen", "mode": "w", "unlock": True}]
     first = {"op": "reopen", "mode": "w"}
     log1 = {"op": "write_log", "id": "run-1.log"}
-    log2 = {"op": "write_log", "id": "fasta-2.log"}
+    log2 = {"op": "write_log", "id": "fasta-2.log" if x in IDS else "blog.log"}
     if template == "retire":
         return [first, N(x), N(y)] + sw + [W(x)]
     if template == "drop":
@@ -1004,7 +1048,8 @@ def pair_script(rng, store, x, y, template, session):
         return [first, N(x), W(y)] + sw + [{"op": "drop_all"}, {"op": "reopen", "mode": "r"}, {"op": "drop_all"}]
     if template == "readonly":
         unlock = {"unlock": True} if session == "reopen-w" else {}
-        z = next(i for i in IDS[IDS.index(y) + 1 :] + IDS if i not in (x, y))  # a second not-completed record, for drop-all
+        pool = pool or IDS
+        z = next(i for i in pool[pool.index(y) + 1 :] + pool if i not in (x, y))  # a second not-completed record, for drop-all
         return [first, W(x), N(y), N(z), {"op": "reopen", "mode": "r"}, W(x), W(y), N(x), N(y), log1, D(y), {"op": "drop_all"}, {"op": "drop_all"}] + (
             [{"op": "reopen", "mode": "a" if session != "reopen-w" else "w", **unlock}, D(y)]
         )
@@ -1022,6 +1067,11 @@ def gen_cases(rng, tier):
             else:
                 for s in SESSIONS:
                     cases.append({"kind": "pairs", "store": store, "x": x, "session": s, "seed": rng.randrange(2**32)})
+        ys = EXTRA_IDS[store] + EXTRA_PARTNERS[store]
+        for x in EXTRA_IDS[store]:
+            sessions = ["rotate"] if tier == "quick" else SESSIONS
+            for s in sessions:
+                cases.append({"kind": "pairs", "store": store, "x": x, "ys": ys, "session": s, "rot": rng.randrange(3), "seed": rng.randrange(2**32)})
     nrand = 32 if tier == "quick" else 480
     per = 20 if tier == "quick" else 50
     maxlen = 15 if tier == "quick" else 25
@@ -1047,17 +1097,19 @@ def run_case(case):
     if kind == "pairs":
         rng = random.Random(case["seed"])
         x = case["x"]
-        for iy, y in enumerate(IDS):
+        ys = case.get("ys", IDS)
+        ix = ys.index(x)
+        for iy, y in enumerate(ys):
             for it, t in enumerate(TEMPLATES):
                 if t not in case.get("templates", TEMPLATES):
                     continue
                 session = case["session"]
                 if session == "rotate":
-                    k = IDS.index(x) + iy + it + case.get("rot", 0)
+                    k = ix + iy + it + case.get("rot", 0)
                     session = SESSIONS[k % len(SESSIONS)]
-                    if t == "readonly" and (IDS.index(x) + 2 * iy + case.get("rot", 0)) % 3:
+                    if t == "readonly" and (ix + 2 * iy + case.get("rot", 0)) % 3:
                         continue  # the long read-only template: a rotating third of the y's per x (quick tier)
-                ops = pair_script(rng, store, x, y, t, session)
+                ops = pair_script(rng, store, x, y, t, session, pool=ys)
                 run_history(res, store, ops, tag=f"p.{t}")
                 res.count(f"histories:{store}")
         res.sample({"store": store, "ops": [_short(o) for o in ops]})
